@@ -126,7 +126,8 @@ def job_list(tier):
         jobs.append(('c04', ('div_rounded', 'II', ty, 0, 0, 18)))
     for mode in c05.MODES:
         for via_none in (False, True):
-            jobs.append(('c05', ('kernel', mode, via_none)))
+            if c05.kernel_fn(get_db(), required=False) is not None:
+                jobs.append(('c05', ('kernel', mode, via_none)))
             for yc in c05.Y_CELLS:
                 jobs.append(('c05', ('divr', mode, via_none, yc)))
     for yc in c05.Y_CELLS:
